@@ -39,7 +39,7 @@ func containerUniverse() []*V {
 		VRange(1, 3), VRange(3, 1), VRange(0, 0),
 		VDrop(i(1)), VDrop(s("a")), VDrop(VAnys(i(1), i(2))), VDrop(VNil()), VDrop(VStrMap(SKV("a", i(1)))),
 		VAnys(VDrop(i(1)), VDrop(s("a"))),
-		VPtr(i(1)), VPtr(s("a")), VNilPtr(), VBytes("ab"), VBytes(""),
+		VPtr(i(1)), VPtr(s("a")), VNilPtr(), VBytes("ab"), VBytes(""), VBytes("\xc3\xa9x"),
 		VStruct(Field{"a", i(1)}, Field{"b", s("x")}),
 	}
 }
